@@ -3,6 +3,7 @@ package c20lib
 import (
 	"fmt"
 	"os"
+	"strings"
 	"time"
 )
 
@@ -32,6 +33,13 @@ var NotCovered = []string{
 	"stale root view combined with a user transaction or with the fallback in the same tick; re-ordered (older-after-newer) certificate-results transactions",
 	"uint64 overflow of pools/supply (property C04); reserves other than the four stated pairs; paths longer than the depth bound",
 }
+
+// CapsLabel marks the configurations that run in the build with small DEX batch capacities (SmallCaps = deposits,
+// withdrawals, orders per batch as printed by -capsinfo). The label is part of the configuration name, after '#'.
+const (
+	CapsLabel = "#small-batch-caps"
+	SmallCaps = "2 2 2"
+)
 
 // RunFn is what main hands to Plan: run one BFS.
 type RunFn func(part, cfg string, depth int, names func(p []int) []string, numOps int, opsFor func(path []int, info string) []int, share float64)
@@ -166,6 +174,29 @@ func Plan(thorough bool, run RunFn) {
 			}, share)
 		}
 	}
+	// the same configuration in the small-batch-caps build: the branches that keep what does not fit in a full batch
+	CS := func(depth, fullDepth int) {
+		share := share
+		if !thorough {
+			share = 0.3 // a second set of worker processes has to warm up: never more than a third of the quick budget
+		}
+		if only == "" || only == "B" || only == "C" || only == "CS" {
+			run("B", "1e6x1e6-capped"+CapsLabel, depth, namesC, len(alphaC), func(path []int, _ string) []int {
+				var out []int
+				for i, o := range alphaC {
+					if len(path) < fullDepth || o.Kind == "tick" || o.Kind == "drop" {
+						out = append(out, i)
+					}
+				}
+				return out
+			}, share)
+		}
+	}
+	BS := func(cfg string, depth, fullDepth int) {
+		if only == "" || only == "B" || only == "CS" {
+			run("B", cfg+CapsLabel, depth, namesB, len(alphaB), bOps(fullDepth), share)
+		}
+	}
 	F := func(cfg string) {
 		if only == "" || only == "B" || only == "F" {
 			run("B", cfg+"#fallback-slice", 5, namesB, len(alphaB), famOps, share)
@@ -179,11 +210,13 @@ func Plan(thorough bool, run RunFn) {
 		F("1e3x1e3-nolp") // seeded liquidity, no liquidity provider: the root's point list is empty when the fallback fires
 		B("1e3x1e3", 2, 2)
 		C(3, 1)
+		CS(3, 3)
 		A("own", 2, 2)
 		B("2p63x2p63", 2, 2)
 		B("1x2p62", 2, 2)
 		B("1x1", 2, 2)
 		B("1e3x1e3-nolp", 2, 2)
+		BS("1e3x1e3", 2, 2)
 		A("tx", 3, 3)
 		A("own", 3, 3)
 		C(4, 2)
@@ -194,6 +227,7 @@ func Plan(thorough bool, run RunFn) {
 		B("1x2p62", 3, 3)
 		B("1x1", 3, 3)
 		B("1e3x1e3", 4, 3)
+		CS(4, 3)
 		return
 	}
 	// thorough: breadth first as well; no single search may take more than a quarter of the budget
@@ -210,6 +244,8 @@ func Plan(thorough bool, run RunFn) {
 		}
 	}
 	C(4, 2)
+	CS(4, 3)
+	BS("1e3x1e3", 3, 3)
 	A("own", 4, 4)
 	B("1e3x1e3", 4, 3)
 	A("tx", 5, 4)
@@ -220,6 +256,7 @@ func Plan(thorough bool, run RunFn) {
 	A("own", 5, 4)
 	B("1e3x1e3", 5, 4)
 	C(5, 3)
+	CS(5, 4)
 	A("tx", 5, 5)
 }
 
@@ -265,6 +302,19 @@ func probeB() {
 		panic("no recipe " + s)
 	}
 	Debug = os.Getenv("C20_DEBUG") != ""
+	if seq := os.Getenv("C20_SEQ"); seq != "" {
+		// one named sequence on one configuration: C20_CFG=<config> C20_SEQ="recipe;recipe;..."
+		cfg := os.Getenv("C20_CFG")
+		p := PathB(cfg, strings.Split(seq, ";"))
+		res := ExecB(cfg, true, p)
+		fmt.Printf("probeB cfg=%s %v (%d recipes resolved) -> ok=%v key=%s viols=%d\n", cfg, seq, len(p), res.OK, res.Key, len(res.Viols))
+		for _, v := range res.Viols {
+			if v.Sig != "stat" {
+				fmt.Printf("   %s: %s\n", v.Sig, v.What)
+			}
+		}
+		return
+	}
 	if os.Getenv("C20_CFG") == "1e6x1e6-capped" {
 		alpha = CappedAlphabet()
 		for _, seq := range [][]string{
